@@ -5,14 +5,6 @@ From YV Require Import Base.Wire Model.Binary Model.CodedCpp Model.CodedPy Model
 Import ListNotations.
 Open Scope N_scope.
 
-Inductive pstep := PSVal (t : ty) (v : val) | PSStream (t : ty) (bs : list py_batch).
-
-Definition pstep_ops (s : pstep) : list pwop :=
-  match s with
-  | PSVal t v => py_wops t v
-  | PSStream t bs => py_stream_ops t bs
-  end.
-
 Definition pwop_eqb (a b : pwop) : bool :=
   match a, b with
   | PWEnsure x, PWEnsure y => Nat.eqb x y
@@ -34,7 +26,60 @@ Fixpoint first_diff (i : N) (a b : list pwop) : N :=
   | _, _ => i + 1
   end.
 
-(* the steps written, the calls observed *)
-Definition trcase := (list pstep * list pwop)%type.
+(* the schema, the steps written, the calls observed (the constructor's header writes included) *)
+Definition trcase := (list N * list pstep * list pwop)%type.
 Definition trcase_status (c : trcase) : N :=
-  let '(steps, obs) := c in first_diff 0 (concat (map pstep_ops steps)) obs.
+  let '(schema, steps, obs) := c in first_diff 0 (py_protocol_ops schema steps) obs.
+
+(* ---- the reader side: the calls a spying CodedInputStream recorded (operation, what it returned) against the calls the
+   typed reader program issues on the same bytes ---- *)
+From YV Require Import Model.PyReadProg Model.PyTypedRead.
+
+Fixpoint rtrace {A} (p : rprog A) (l : list N) : list (pop * rval) * option (list N) :=
+  match p with
+  | RRet _ => ([], Some l)
+  | RFail => ([], None)
+  | ROp op k => match pastep l op with
+                | Some (v, r) => let '(tr, rest) := rtrace (k v) r in ((op, v) :: tr, rest)
+                | None => ([], None)
+                end
+  end.
+
+(* a stream step is read with fuel = number of blocks + 1 *)
+Inductive rstep := RSVal (t : ty) | RSStream (t : ty) (sizes : list nat).
+
+Fixpoint rtrace_steps (steps : list rstep) (l : list N) : list (pop * rval) :=
+  match steps with
+  | [] => []
+  | s :: r =>
+      let '(tr, rest) := match s with
+                         | RSVal t => rtrace (py_read t) l
+                         | RSStream t sizes => rtrace (py_read_stream (S (length sizes)) t) l
+                         end in
+      match rest with
+      | Some l' => tr ++ rtrace_steps r l'
+      | None => tr
+      end
+  end.
+
+Definition pop_eqb (a b : pop) : bool :=
+  match a, b with
+  | PByte, PByte | PVar, PVar => true
+  | PFixed x, PFixed y => Nat.eqb x y
+  | PBytes x, PBytes y => x =? y
+  | _, _ => false
+  end.
+
+Fixpoint first_rdiff (i : N) (a b : list (pop * rval)) : N :=
+  match a, b with
+  | [], [] => 0
+  | (o1, v1) :: a', (o2, v2) :: b' => if pop_eqb o1 o2 && rval_eqb v1 v2 then first_rdiff (i + 1) a' b' else i + 1
+  | _, _ => i + 1
+  end.
+
+(* the reader's own schema, the steps, the whole stream, the calls observed (the constructor's header reads included) *)
+Definition rtcase := (list N * list rstep * list N * list (pop * rval))%type.
+Definition rtcase_status (c : rtcase) : N :=
+  let '(schema, steps, stream, obs) := c in
+  let '(htr, rest) := rtrace (py_read_header schema) stream in
+  first_rdiff 0 (htr ++ match rest with Some body => rtrace_steps steps body | None => [] end) obs.
